@@ -23,7 +23,7 @@ HEADER = (
     "Require Import PV.Core.Obj PV.Core.Val PV.Core.Subst PV.Core.C14Run.\n"
 )
 
-LAWS = ["refl", "sym", "trans", "eq_hash", "merged", "idem", "never_identity", "comm", "assoc", "no_nesting",
+LAWS = ["idem_self", "refl", "sym", "trans", "eq_hash", "merged", "idem", "never_identity", "comm", "assoc", "no_nesting",
         "members", "accepts", "subst_closed", "subst_elim", "subst_comm", "normal_fix"]
 
 
@@ -103,6 +103,7 @@ def impl_case(case):
     obs["u_ab"], obs["u_ba"], obs["comm"] = enc(ab), enc(ba), ab == ba
     obs["assoc_l"], obs["assoc_r"], obs["assoc"] = enc(l), enc(r), l == r
     obs["u_aa"], obs["u_a"] = enc(aa), enc(a1)
+    obs["veq_a_ua"], obs["veq_uaa_a"] = (a == a1), (aa == a)
     obs["sub_a"], obs["sub_u"], obs["u_sub"], obs["subst_comm"] = enc(sa), enc(s_u), enc(u_s), s_u == u_s
     # the dict-key identification (hash equal and ==) between all alternatives of the operands:
     # a hash deviation anywhere inside an alternative shows up here
@@ -116,6 +117,11 @@ def impl_case(case):
     laws["eq_hash"] = not (a == b) or hash(a) == hash(b)
     laws["merged"] = not (a == b) or (ab == a1)
     laws["idem"] = aa == a1
+    # for a union that stays a union, multiplicity and order of the members are invisible to ==:
+    # uniting it with itself / with Never gives an equal value even when it was built with repeats
+    # (Any[unreachable] members are dropped by unite_values, so such unions are excluded)
+    if isinstance(a, V.MultiValuedValue) and isinstance(a1, V.MultiValuedValue) and not any(V._is_unreachable(x) for x in a.vals):
+        laws["idem_self"] = (aa == a) and (a1 == a) and (a == a1) and un(V.NO_RETURN_VALUE, a) == a and un(a, V.NO_RETURN_VALUE) == a
     laws["never_identity"] = un(V.NO_RETURN_VALUE, a) == a1 and un(a, V.NO_RETURN_VALUE) == a1
     laws["comm"] = ab == ba
     laws["assoc"] = l == r
@@ -154,10 +160,10 @@ def model_term(terms):
 
 def decode_model(res):
     # Coq prints left-nested pairs flat: the first component's fields come first
-    veq_ab, veq_bc, veq_ac, e_ab, heq_ab, (ab, ba, comm), (l, r, assoc), (aa, a1), (sa, s_u, u_s, scomm), guards, roots, emat = res
+    veq_ab, veq_bc, veq_ac, e_ab, heq_ab, (ab, ba, comm), (l, r, assoc), (aa, a1, veq_a_ua, veq_uaa_a), (sa, s_u, u_s, scomm), guards, roots, emat = res
     obs = {"veq_ab": veq_ab, "veq_bc": veq_bc, "veq_ac": veq_ac, "E_ab": e_ab, "u_ab": ab, "u_ba": ba, "comm": comm,
            "assoc_l": l, "assoc_r": r, "assoc": assoc, "u_aa": aa, "u_a": a1, "sub_a": sa, "sub_u": s_u, "u_sub": u_s,
-           "subst_comm": scomm, "emat": emat}
+           "subst_comm": scomm, "emat": emat, "veq_a_ua": veq_a_ua, "veq_uaa_a": veq_uaa_a}
     g = dict(zip(["equiv", "hash_consistent", "unhashable_literal", "annotated_unreachable", "flat", "nested_annot"], guards))
     g["roots"] = dict(zip(["literal", "union_order", "kwonly_order", "other"], roots))
     return obs, heq_ab, g
@@ -276,7 +282,7 @@ def run(tier: str, replay: str | None = None):
                                 else:
                                     attributed = False
                                     break
-                elif g["annotated_unreachable"] and set(bad) <= {"idem", "never_identity", "merged", "normal_fix", "members", "subst_comm", "subst_closed", "comm", "assoc"}:
+                elif g["annotated_unreachable"] and set(bad) <= {"idem", "idem_self", "never_identity", "merged", "normal_fix", "members", "subst_comm", "subst_closed", "comm", "assoc"}:
                     fid = "C14-annotated-unreachable"
                     if fid in findings:
                         rep.known(fid, findings[fid]["what"])
@@ -302,13 +308,13 @@ def run(tier: str, replay: str | None = None):
     if not proof.ok and not failing:
         rep.violation({"kind": "broken-obligation", "theorem": "; ".join(proof.broken), "log": proof.log[-1500:]}, no_failing_input=True)
 
-    n_eval = len(idx) * 17
+    n_eval = len(idx) * 19
     rep.coverage.update(
         evaluations=n_eval,
         distinct_nontrivial=len(distinct),
         rule="a case = (a, b, c, typevar map) of generated Values (literals incl. unhashable ones with shared/distinct identity, typed, NewType, "
         "generic, sequence, dict-incomplete, TypedDict, callable, annotated, subclass, typevar, raw and united nested unions); b/c are often "
-        "variants of a (shuffled unions, re-created unhashable literals); 17 observables per case (incl. the hash-and-== matrix over all alternatives) are compared model vs implementation; "
+        "variants of a (shuffled unions, re-created unhashable literals); 19 observables per case (incl. the hash-and-== matrix over all alternatives) are compared model vs implementation; "
         "non-trivial = a or b is not a bare typed/Any value",
         samples=[cases[i] for i in idx[:3]],
         traces_validated_against_impl=validated,
